@@ -2854,6 +2854,16 @@ class Processor:
 
         recurse(self.data, parent, parentref, change_node, new_node)
 
+        # A key which this Hash merely inherits through a YAML Merge Key is
+        # not among its own entries; setting it overrides it locally.
+        if (isinstance(parent, CommentedMap)
+            and parentref in parent
+            and parent[parentref] is change_node
+            and not any(key == parentref
+                        for key, _ in parent.non_merged_items())
+        ):
+            parent[parentref] = new_node
+
         self.logger.debug(
             "Parent after change:", prefix="Processor::_update_node:  ",
             data=parent)
